@@ -223,6 +223,13 @@ func GenSProgram(t *rapid.T, cfg SGenCfg) SProgram {
 			p.Ops = append(p.Ops, o)
 		case "ctldelsnap":
 			p.Ops = append(p.Ops, SOp{K: "ctldelsnap", N: int64(rapid.IntRange(0, 7).Draw(t, "which"))})
+		case "addresize":
+			n := rapid.IntRange(0, nodes-1).Draw(t, "node")
+			add := rapid.IntRange(1, 8).Draw(t, "grow")
+			// the candidate leaves (if attached) and comes back closed, then asks to be added while the volume grows
+			p.Ops = append(p.Ops, SOp{K: "remove", Node: n}, SOp{K: "reconnect", Node: n}, SOp{K: "addresize", Node: n, N: int64(add)})
+			blocks += add
+			total = int64(blocks) * 8
 		case "iorace":
 			off := rapid.Int64Range(0, total-1).Draw(t, "off")
 			p.Ops = append(p.Ops, SOp{K: "iorace", Node: rapid.IntRange(0, nodes-1).Draw(t, "node"), Off: off / 8 * 8,
